@@ -38,10 +38,10 @@ def make_case(tier, seed, index):
         case["dt"] = float(DYADIC[int(rng.integers(0, len(DYADIC)))])
         case["steps"] = max(case["steps"], 4)
         case["prog_start_step"] = float(int(case["prog_start_step"]))
-        k1 = int(rng.integers(1, case["steps"]))
+        k1 = int(rng.integers(1, case["steps"])) if rng.random() < 0.85 else 0  # (the first time point is a grid year like any other)
         chain = [k1]
         if rng.random() < 0.4 and case["steps"] - k1 >= 2:
-            chain.append(int(rng.integers(1, case["steps"] - k1)))
+            chain.append(int(rng.integers(1, case["steps"] - k1)) if rng.random() < 0.8 else 0)
         case.update({"kind": "restart-corpus", "chain": chain, "spreadsheet": bool(rng.random() < 0.4)})
         return case
     dts = DYADIC if rng.random() < 0.7 else gen.DTS
@@ -51,10 +51,10 @@ def make_case(tier, seed, index):
     spec = gen.gen_spec(rng, pf)
     ps = gen.gen_progspec(rng, spec) if rng.random() < 0.5 else None
     n = max(2, int(round((spec["settings"]["end"] - spec["settings"]["start"]) / spec["settings"]["dt"])))
-    k1 = int(rng.integers(1, n))
+    k1 = int(rng.integers(1, n)) if rng.random() < 0.85 else 0  # (the first time point is a grid year like any other)
     chain = [k1]
     if rng.random() < 0.4 and n - k1 >= 2:
-        chain.append(int(rng.integers(1, n - k1)))
+        chain.append(int(rng.integers(1, n - k1)) if rng.random() < 0.8 else 0)
     return {"kind": "restart", "spec": spec, "progspec": ps, "chain": chain, "spreadsheet": bool(rng.random() < 0.4)}
 
 
@@ -161,6 +161,8 @@ def run_case(case):
             R.bad("restart-grid", "C10:restarted-grid-is-not-the-tail-of-the-original", {"tail": tail[:4].tolist(), "restarted": t1[:4].tolist()})
             break
         R.count("restarts_compared")
+        if k == 0:
+            R.count("restarts_at_the_first_time_point")
         if same_grid:
             R.count("restarts_bit_exact_grid")
         judge_all = same_grid or cont
